@@ -245,9 +245,11 @@ func RunReplays(reg map[string]func()) {
 		}
 		overrides = map[string]any{}
 		params = c.Params
+		ResetTempDir()
 		outcome, detail := runOne(h)
 		fmt.Printf("ZZVERIF-RESULT %s\n", mustJSON(map[string]any{"id": c.ID, "outcome": outcome, "detail": detail, "obs": Obs}))
 	}
+	ResetTempDir()
 }
 
 func mustJSON(v any) string {
@@ -280,3 +282,55 @@ func Exists(cond bool, label string) {}
 // PermuteMaps: while on, the engine treats the iteration order of every map
 // with at most three entries as a symbolic choice (all permutations explored).
 func PermuteMaps(on bool) {}
+
+// ---------------------------------------------------------------------
+// File-system access for harnesses (engine: in-memory model; native: a
+// temporary directory of the real file system).
+
+var tempDir string
+
+func TempDir() string {
+	if tempDir == "" {
+		d, err := os.MkdirTemp("", "zzverif-")
+		if err != nil {
+			panic(err)
+		}
+		tempDir = d
+	}
+	return tempDir
+}
+
+// ResetTempDir removes the directory of the previous replay.
+func ResetTempDir() {
+	if tempDir != "" {
+		os.RemoveAll(tempDir)
+		tempDir = ""
+	}
+}
+
+func FSFiles() []string {
+	ents, _ := os.ReadDir(TempDir())
+	var res []string
+	for _, e := range ents {
+		res = append(res, TempDir()+"/"+e.Name())
+	}
+	return res
+}
+
+func FSSize(name string) int {
+	st, err := os.Stat(name)
+	if err != nil {
+		return -1
+	}
+	return int(st.Size())
+}
+
+func FSTruncate(name string, n int) {
+	if st, err := os.Stat(name); err == nil && int64(n) < st.Size() {
+		os.Truncate(name, int64(n))
+	}
+}
+
+func FSBadUse() int        { return 0 }
+func FSOps() int           { return 0 }
+func FSCrashAfter(k int)   {}
